@@ -1076,3 +1076,161 @@ pub fn gen_c06(r: &mut Rng) -> (String, Sim) {
     );
     (class, sim)
 }
+
+// ---------------------------------------------------------------------------
+// C05: BMCA decision over small exhaustive-ish value domains
+
+pub fn gen_c05(r: &mut Rng) -> (String, Sim) {
+    let own_clock = *r.pick(&[0x0500_0000_0000_0005u64, 0x0100_0000_0000_0001, 0x0c00_0000_0000_000c]);
+    let icfg = InstCfg {
+        clock_identity: own_clock,
+        prio1: *r.pick(&[127u8, 128]),
+        prio2: *r.pick(&[127u8, 128]),
+        domain: 0,
+        sdo_id: 0,
+        slave_only: r.chance(1, 8),
+        path_trace: r.chance(1, 3),
+        quality: (
+            *r.pick(&[6u8, 127, 128, 248, 248]),
+            *r.pick(&[0x20u8, 0x21]),
+            *r.pick(&[1u16, 2]),
+        ),
+        tp: default_tp(),
+    };
+    let np = 1 + r.below(3) as usize;
+    let cfgs: Vec<PortCfg> = (0..np)
+        .map(|_| {
+            let mut c = rand_port_cfg(r);
+            c.acceptable = None;
+            c.log_announce = 0;
+            c.master_only = r.chance(1, 8);
+            c
+        })
+        .collect();
+    let mut sim = Sim::new(icfg, cfgs);
+    // grandmaster table: identity -> attributes (keeps the candidate set GM-consistent)
+    let gm_ids = [0x0900_0000_0000_0009u64, 0x0200_0000_0000_0002, 0x0e00_0000_0000_000e];
+    let mut gms: Vec<Ann> = gm_ids
+        .iter()
+        .map(|g| Ann {
+            utc_offset: r.range(0, 40) as i16,
+            prio1: *r.pick(&[127u8, 128]),
+            class: *r.pick(&[6u8, 127, 128, 248]),
+            accuracy: *r.pick(&[0x20u8, 0x21]),
+            variance: *r.pick(&[1u16, 2]),
+            prio2: *r.pick(&[127u8, 128]),
+            gm: *g,
+            steps: 0,
+            time_source: 0xa0,
+        })
+        .collect();
+    // masters: sender identities around the own clock identity
+    let sender_ids = [0x0400_0000_0000_0004u64, 0x0600_0000_0000_0006, 0x0f00_0000_0000_000f];
+    let nm = 1 + r.below(3) as usize;
+    struct M {
+        clock: u64,
+        port: u16,
+        gm: usize,
+        steps: u16,
+        seq: u16,
+        ports: Vec<usize>,
+        flags: u8,
+    }
+    let mut ms: Vec<M> = (0..nm)
+        .map(|k| M {
+            clock: sender_ids[k],
+            port: 1 + r.below(2) as u16,
+            gm: r.below(3) as usize,
+            steps: *r.pick(&[0u16, 1, 2, 3, 254]),
+            seq: r.below(100) as u16,
+            ports: {
+                let mut v: Vec<usize> = (0..np).filter(|_| r.chance(1, 2)).collect();
+                if v.is_empty() {
+                    v.push(r.below(np as u64) as usize);
+                }
+                v
+            },
+            flags: r.below(64) as u8,
+        })
+        .collect();
+    let mut kinds = std::collections::BTreeSet::new();
+    for p in 0..np {
+        if r.chance(1, 4) {
+            kinds.insert("prior-master");
+            sim.step(Ev::AnnounceReceiptTimer(p));
+        }
+    }
+    let rounds = 1 + r.below(3);
+    let mut w = World::new(r, &sim, 1);
+    'outer: for round in 0..rounds {
+        if round > 0 {
+            match r.below(5) {
+                0 => {
+                    kinds.insert("quality");
+                    if !sim.step(Ev::SetClockQuality((
+                        *r.pick(&[6u8, 127, 128, 248]),
+                        *r.pick(&[0x20u8, 0x21]),
+                        *r.pick(&[1u16, 2]),
+                    ))) {
+                        break;
+                    }
+                }
+                1 => {
+                    kinds.insert("gmchange");
+                    let g = r.below(3) as usize;
+                    gms[g].prio1 = *r.pick(&[127u8, 128]);
+                    gms[g].class = *r.pick(&[6u8, 127, 128, 248]);
+                }
+                2 => {
+                    kinds.insert("steps");
+                    let k = r.below(nm as u64) as usize;
+                    ms[k].steps = *r.pick(&[0u16, 1, 2, 3, 254]);
+                }
+                3 => {
+                    kinds.insert("slaveonly");
+                    if !sim.step(Ev::SetSlaveOnly(r.chance(1, 2))) {
+                        break;
+                    }
+                }
+                _ => {}
+            }
+        }
+        // presentation order of the announces varies
+        let mut order: Vec<(usize, usize)> = Vec::new();
+        for (k, m) in ms.iter().enumerate() {
+            for p in &m.ports {
+                order.push((k, *p));
+                order.push((k, *p));
+            }
+        }
+        for i in (1..order.len()).rev() {
+            let j = r.below(i as u64 + 1) as usize;
+            order.swap(i, j);
+        }
+        for (k, p) in order {
+            let m = &mut ms[k];
+            m.seq = m.seq.wrapping_add(1);
+            let mut a = gms[m.gm].clone();
+            a.steps = m.steps;
+            let mut h = w.hdr(ANNOUNCE, m.clock, m.port, m.seq);
+            h.flags = [0, m.flags];
+            if !sim.step(Ev::RecvGeneral(p, frame(&h, &announce_body(&a), &[]))) {
+                break 'outer;
+            }
+        }
+        if !sim.step(Ev::Bmca) {
+            break;
+        }
+        w.observe(&sim);
+    }
+    let class = format!(
+        "c05:{}:np{}:nm{}:r{}:{}:{}",
+        if sim.panicked { "panic" } else { "ok" },
+        np,
+        nm,
+        rounds,
+        kinds.iter().cloned().collect::<Vec<_>>().join("+"),
+        sim.states.iter().map(|s| s.to_string()).collect::<Vec<_>>().join("")
+    );
+    (class, sim)
+}
